@@ -821,25 +821,31 @@ func TestVerif_C07(t *testing.T) {
 			return
 		}
 		rep.Eval(1)
-		got, n := false, 0
+		// everything that still arrives was waiting when the marker was published: if that is
+		// fewer than the configured buffer, the marker was not "beyond the buffer"
+		got, pending := false, 0
 		for {
 			m, ok := sub.GetWithin(time.Second)
 			if !ok {
 				break
 			}
-			n++
 			if em, is := m.(*mocrelay.ServerEventMsg); is && em.Event.ID == marker.ID {
 				got = true
-				break
+				continue
 			}
+			pending++
 		}
-		if !got {
-			rep.Violation("backpressure/dropped-although-the-buffer-had-room", fmt.Sprintf("a subscriber (buffer %d) overflowed, then took %d deliveries; an event published after that - acknowledged with OK - never arrived although %d more deliveries did", buf, took, n), map[string]any{"buffer": buf, "taken_before_the_publication": took})
+		switch {
+		case got:
+			rep.Count("publications_after_a_partial_drain_delivered", 1)
+		case pending < buf:
+			rep.Violation("backpressure/dropped-although-the-buffer-had-room", fmt.Sprintf("a subscriber (buffer %d) overflowed, then took %d deliveries; when the next event was published - and acknowledged with OK - only %d deliveries were waiting for it, yet that event never arrived", buf, took, pending), map[string]any{"buffer": buf, "taken_before_the_publication": took, "waiting_at_the_publication": pending})
 			return
+		default:
+			rep.Count("publications_after_a_partial_drain_beyond_the_buffer", 1)
 		}
-		rep.Count("publications_after_a_partial_drain_delivered", 1)
 	})
-	rep.Require(rep.Violations() > 0 || rep.Counter("publications_after_a_partial_drain_delivered") >= int64(nResume*9/10), "resume-after-overflow scenario")
+	rep.Require(rep.Violations() > 0 || rep.Counter("publications_after_a_partial_drain_delivered")+rep.Counter("publications_after_a_partial_drain_beyond_the_buffer") >= int64(nResume*9/10), "resume-after-overflow scenario")
 	// a publisher that goes away while its own EVENT is being fanned out: when it still got its
 	// accepting OK, the event was published, and every subscription that was open (EOSE read
 	// long before) must get it - whether the publisher is still there does not matter to them
